@@ -178,6 +178,9 @@ type c19Case struct {
 	Want    string   `json:"want"`    // expected RFC3339 / epoch text; "ERROR" = must fail
 	Instant string   `json:"instant"` // RFC3339Nano of the expected instant (informational)
 	Layout  string   `json:"layout,omitempty"`
+	// Before: calls made first in the same process (results ignored): the functions keep no state, so
+	// what an earlier call read a text as must not matter
+	Before []c19Case `json:"calls_before,omitempty"`
 }
 
 func c19Call(cs c19Case) (string, error) {
@@ -208,7 +211,12 @@ func yearClass(y int) string {
 func c19Check(cs c19Case) (sig, detail string) {
 	var got string
 	var err error
-	pv, site := core.Safe(func() { got, err = c19Call(cs) })
+	pv, site := core.Safe(func() {
+		for _, b := range cs.Before {
+			c19Call(b)
+		}
+		got, err = c19Call(cs)
+	})
 	yc := ""
 	if t, perr := time.Parse(time.RFC3339Nano, cs.Instant); perr == nil {
 		yc = ":" + yearClass(t.UTC().Year())
@@ -289,7 +297,7 @@ func init() {
 	core.Register(&core.Prop{
 		ID:    "C19",
 		Level: "exploration",
-		Rule:  "finite grid: instants = {Jan 1 00:00:00, Feb 28 23:59:59, Feb 29 (leap years), Jun 30 12:34:56, Dec 31 23:59:59} of EVERY year 1..9999 + 1 s around every offset transition 1900-2037 of 40 zones + the int64-nanosecond limits + sentinels; layouts = every date form x date/time delimiter x time form x AM/PM form x fraction length 0..9 x zone suffix form advertised by the smart parser; zones = every IANA name known to the parser that this system can load, as source and as target; both epoch units; expected values computed with time.Date/In/Unix; plus a mutation alphabet of unparsable strings that must yield errors; a case is distinct by (function, arguments)",
+		Rule:  "finite grid: instants = {Jan 1 00:00:00, Feb 28 23:59:59, Feb 29 (leap years), Jun 30 12:34:56, Dec 31 23:59:59} of EVERY year 1..9999 + 1 s around every offset transition 1900-2037 of 40 zones + the int64-nanosecond limits + sentinels; layouts = every date form x date/time delimiter x time form x AM/PM form x fraction length 0..9 x zone suffix form advertised by the smart parser; zones = every IANA name known to the parser that this system can load, as source and as target; both epoch units; expected values computed with time.Date/In/Unix; plus every ordered pair of different readings of one text (day-first / month-first layout, layoutTZ on / off, smart parser, both epoch units) made by consecutive calls; plus a mutation alphabet of unparsable strings that must yield errors; a case is distinct by (function, arguments)",
 		Assumptions: []string{
 			"the expected values come from Go's time package (time.Date, Time.In, Time.Unix), which is the trusted base",
 			"RFC3339 output has second resolution: a fractional second in the input is compared after truncation for the RFC3339 functions and exactly (to the millisecond) for dateTimeToEpoch MILLISECOND",
@@ -477,6 +485,7 @@ func c19Run(c *core.Ctx) {
 								do(w, l, loc, name, "", "")
 								do(w, l, loc, name, "Australia/Lord_Howe", "")
 								do(w, l, loc, name, "", "Asia/Kathmandu")
+								do(w, l, loc, name, "Asia/Tokyo", "Asia/Tokyo") // the same zone as source and as target
 							}
 						}
 					}
@@ -503,6 +512,9 @@ func c19Run(c *core.Ctx) {
 			do(w, base, nil, "", p, z)
 			do(w, layoutSpec{0, "T", 0, 0, "-IANA"}, loc, z, "", p)
 			do(w, base, nil, "", "", z)
+			do(w, base, nil, "", z, z)
+			do(w, layoutSpec{0, "T", 0, 0, "-IANA"}, loc, z, p, p)
+			do(w, layoutSpec{0, "T", 0, 0, "Z"}, time.UTC, "UTC", z, z)
 		}
 		if c.TimeUp() {
 			return
@@ -593,6 +605,56 @@ func c19Run(c *core.Ctx) {
 				tk, _ := time.LoadLocation("Asia/Tokyo")
 				x := time.Date(in.Year(), in.Month(), in.Day(), in.Hour(), in.Minute(), in.Second(), 0, tk)
 				emit(c19Case{Fn: "dateTimeLayoutToRFC3339", Args: []string{s, lt.layout, flag, "Asia/Tokyo", "America/New_York"}, Want: rfc(x.In(ny)), Instant: x.UTC().Format(time.RFC3339Nano), Layout: "explicit:" + lt.layout})
+			}
+		}
+	}
+	// (4b) the same text read in different ways by consecutive calls (explicit day-first / month-first
+	// layouts, layoutTZ on and off, the smart parser, both epoch units): every ordered pair of readings
+	{
+		utc := func(y int, m time.Month, d, hh, mm, ss int) time.Time {
+			return time.Date(y, m, d, hh, mm, ss, 0, time.UTC)
+		}
+		var groups [][]c19Case
+		{
+			t := "03/04/2021 10:20:30"
+			mf, df := utc(2021, 3, 4, 10, 20, 30), utc(2021, 4, 3, 10, 20, 30)
+			groups = append(groups, []c19Case{
+				{Fn: "dateTimeLayoutToRFC3339", Args: []string{t, "02/01/2006 15:04:05", "false", "", ""}, Want: df.Format("2006-01-02T15:04:05"), Layout: "pair"},
+				{Fn: "dateTimeLayoutToRFC3339", Args: []string{t, "01/02/2006 15:04:05", "false", "", ""}, Want: mf.Format("2006-01-02T15:04:05"), Layout: "pair"},
+				{Fn: "dateTimeToRFC3339", Args: []string{t, "", ""}, Want: mf.Format("2006-01-02T15:04:05"), Layout: "pair"},
+				{Fn: "dateTimeToEpoch", Args: []string{t, "", "SECOND"}, Want: strconv.FormatInt(mf.Unix(), 10), Layout: "pair"},
+				{Fn: "dateTimeToEpoch", Args: []string{t, "", "MILLISECOND"}, Want: strconv.FormatInt(mf.Unix()*1000, 10), Layout: "pair"},
+				{Fn: "dateTimeLayoutToRFC3339", Args: []string{t, "02/01/2006 15:04:05", "false", "Asia/Tokyo", "UTC"}, Want: rfc(df.Add(-9 * time.Hour)), Layout: "pair"},
+			})
+			t2 := "25/12/2022 00:00:00" // only readable day-first
+			x := utc(2022, 12, 25, 0, 0, 0)
+			groups = append(groups, []c19Case{
+				{Fn: "dateTimeLayoutToRFC3339", Args: []string{t2, "02/01/2006 15:04:05", "false", "", ""}, Want: x.Format("2006-01-02T15:04:05"), Layout: "pair"},
+				{Fn: "dateTimeToRFC3339", Args: []string{t2, "", ""}, Want: "ERROR", Layout: "pair"},
+				{Fn: "dateTimeToEpoch", Args: []string{t2, "", "SECOND"}, Want: "ERROR", Layout: "pair"},
+			})
+			t3 := "2021-03-04T10:20:30-07:00" // with layoutTZ the offset counts, without it the wall clock is taken as it is
+			y := time.Date(2021, 3, 4, 10, 20, 30, 0, time.FixedZone("", -7*3600))
+			groups = append(groups, []c19Case{
+				{Fn: "dateTimeLayoutToRFC3339", Args: []string{t3, time.RFC3339, "true", "", ""}, Want: rfc(y), Layout: "pair"},
+				{Fn: "dateTimeLayoutToRFC3339", Args: []string{t3, time.RFC3339, "false", "", ""}, Want: "2021-03-04T10:20:30", Layout: "pair"},
+				{Fn: "dateTimeToRFC3339", Args: []string{t3, "", "UTC"}, Want: rfc(y.UTC()), Layout: "pair"},
+				{Fn: "dateTimeToEpoch", Args: []string{t3, "", "SECOND"}, Want: strconv.FormatInt(y.Unix(), 10), Layout: "pair"},
+			})
+		}
+		for _, g := range groups {
+			for i := range g {
+				emit(g[i])
+				for j := range g {
+					if i != j {
+						cs := g[i]
+						cs.Before = []c19Case{g[j]}
+						emit(cs)
+						cs2 := g[i]
+						cs2.Before = []c19Case{g[j], g[j], g[i]}
+						emit(cs2)
+					}
+				}
 			}
 		}
 	}
